@@ -25,7 +25,7 @@ from ..runner import Collector, Violation
 PROPERTY_ID = "C15"
 LEVEL = "exploration"
 RULE = (
-    "case = (text-bearing position, payload). The position x payload matrix (32 positions x 50 payloads mid-text, plus 13 edge-sensitive payloads x 5 other placements: alone / at the start / at the end / on a line of its own / inside a long wrapped text; thorough: all payloads x all placements) is enumerated completely; "
+    "case = (text-bearing position, payload). The position x payload matrix (33 positions x 50 payloads mid-text, plus 18 edge-sensitive payloads x 5 other placements: alone / at the start / at the end / on a line of its own / inside a long wrapped text; thorough: all payloads x all placements) is enumerated completely; "
     "Hypothesis text() payloads are added on top. Non-trivial = the payload reaches generated text (it, or an escaped spelling of "
     "it, occurs in some emitted file). Matrix cases are distinct by construction."
 )
@@ -45,7 +45,8 @@ PAYLOADS = [
 ]
 # payloads whose effect depends on what is next to them (closing quotes, start of a line, end of the text): also placed
 # alone / at the start / at the end / on a line of their own
-EDGE_PAYLOADS = ['"', "'", "\\", '"""', "\r", "#", "{x}", "async def injected(self) -> None:", "@overload", "def f():", "class X:", "    x = 1", "\x00"]
+EDGE_PAYLOADS = ['"', "'", "\\", '"""', "\r", "#", "{x}", "async def injected(self) -> None:", "@overload", "def f():", "class X:", "    x = 1", "\x00",
+                 " ", "\n", "\t", "\u2028", "\xa0"]
 PLACES = {
     "mid": lambda p: "ab" + p + "cd",
     "whole": lambda p: p,
@@ -128,6 +129,12 @@ def _pos_property_name(spec, text):
     _rename_key(props, "tags", text)
 
 
+def _pos_required_property_name(spec, text):
+    thing = spec["components"]["schemas"]["Thing"]
+    _rename_key(thing["properties"], "name", text)
+    thing["required"] = [text]
+
+
 def _pos_enum_value(spec, text):
     spec["components"]["schemas"]["Size"]["enum"] = ["small", text]
 
@@ -161,6 +168,7 @@ POSITIONS = {
     "map_property.description": (lambda s, t: _set(s, ["components", "schemas", "Thing", "properties", "meta", "description"], t), None),
     "property.default": (lambda s, t: _set(s, ["components", "schemas", "Thing", "properties", "note", "default"], t), "default"),
     "property.name": (_pos_property_name, "wire_key"),
+    "required_property.name": (_pos_required_property_name, "wire_key"),
     "enum.value": (_pos_enum_value, "enum:Size"),
     "inline_enum.value": (_pos_inline_enum_value, "inline_enum"),
     "param_enum.value": (_pos_param_enum_value, None),
@@ -192,7 +200,7 @@ def valid_case(case: dict) -> bool:
 
 # positions whose text becomes identifiers: declaration order (fields and parameters are sorted by derived name) and file names
 # follow the text, so the comparison is order-insensitive there: a histogram of AST node types per file
-NAME_POSITIONS = {"property.name", "query_param.name", "header_param.name", "cookie_param.name", "operationId", "tag"}
+NAME_POSITIONS = {"property.name", "required_property.name", "query_param.name", "header_param.name", "cookie_param.name", "operationId", "tag"}
 
 
 def skeleton(src: str, loose: bool = False) -> str:
